@@ -45,6 +45,9 @@ def oracle(r, viol):
     case = {'cfg': r['cfg'], 'point': r.get('point'), 'faults': r.get('faults'), 'role': r['role'], 'calls': r['calls']}
     def v(sig, what, obs=None):
         viol.append({'signature': sig, 'case': case, 'observed': obs, 'what': f'C12: {where(r)}: {what}'})
+    kc = r.get('kill_check')
+    if kc and kc['bad']:
+        v('harness:snapshot-is-not-what-a-kill-leaves', f'a process really killed at a point left another tree than the one noted there: {kc["bad"][:2]}')
     if r['escaped']:
         v('harness:uninstrumented-mutation', f'the tree changed outside the intercepted mutation: {r["escaped"]}')
     for res, exp, call in zip(r['results'], r['expected'], r['calls']):
@@ -116,6 +119,7 @@ def run(ctx):
         key = r['role'] + ('/faulted' if r.get('faults') else '')
         dist[key] = dist.get(key, 0) + 1
     dist['crash_points'] = points
+    dist['real_kills_compared'] = sum(r.get('kill_check', {}).get('points', 0) for r in recs)
     dist['misses'] = sum(1 for r in recs for _, h in r['answers'] if not h)
     dist['hits'] = sum(1 for r in recs for _, h in r['answers'] if h)
     dist['fault_kinds'] = {}
